@@ -201,7 +201,8 @@ class Optimizer(Identifiable, Runnable):
         return state
 
     def load_state_dict(self, state_dict: dict[str, Any]) -> None:
-        self._epoch = state_dict["iteration"]
+        # the checkpoint is written at the end of an iteration: resume with the next one
+        self._epoch = state_dict["iteration"] + 1
         optimizer_state = dict(state_dict["optimizer"])
         # the state of torch optimizers is keyed by integers but JSON keys are strings
         optimizer_state["state"] = {
